@@ -179,6 +179,11 @@ def explore_config(ex, files, faults, T, style, bound, update_all=False, idx=0, 
                     extra = [x for x in got if x not in want[0]]
                     kind = "missing" if missing and not extra else "extra" if extra and not missing else "different"
                     rep.violation(f"records-{kind}:{style}", dict(case, missing=missing[:5], extra=extra[:5]))
+                # the printed error summary is a function of the findings
+                m2 = re.search(rb"(\d+) error\(s\) found", err)
+                n_err = sum(1 for r in recs if r.get("severity") == "error")
+                if (int(m2.group(1)) if m2 else 0) != n_err:
+                    rep.violation("error-summary-differs-from-error-findings", dict(case, summary=(m2.group(0).decode() if m2 else None), error_findings=n_err))
                 if (1 if code != 0 else 0) != want[1]:
                     rep.violation("exit-status-depends-on-schedule-or-differs-from-per-file-runs", dict(case, code=code, want=want[1]))
                 order = tuple(r["file"] for r in recs)
